@@ -16,6 +16,7 @@ package persist
 
 import (
 	"encoding/csv"
+	"errors"
 	"strings"
 
 	"github.com/casbin/casbin/v2/model"
@@ -42,6 +43,9 @@ func LoadPolicyLine(line string, m model.Model) error {
 
 // LoadPolicyArray loads a policy rule to model.
 func LoadPolicyArray(rule []string, m model.Model) error {
+	if len(rule) == 0 || rule[0] == "" {
+		return errors.New("invalid policy rule: missing policy type")
+	}
 	key := rule[0]
 	sec := key[:1]
 	ok, err := m.HasPolicyEx(sec, key, rule[1:])
